@@ -291,6 +291,12 @@ class Project:
     def func(self, fq):
         f = self.funcs.get(fq)
         if f is None:
+            # a private helper that was merged into its only caller: the code the rules look for now lives there
+            from .inline import pinned_callers
+            cs = pinned_callers(fq)
+            if len(cs) == 1 and cs[0] in self.funcs and fq.rpartition('.')[2].rpartition(':')[2].startswith('_'):
+                self.inline_log.append(f'{fq} is gone; its only caller {cs[0]} of the reference layout is analysed in its place')
+                return self.funcs[cs[0]]
             raise AnalysisError(f'anchor function {fq} not found')
         return f
 
